@@ -43,6 +43,40 @@ CHECKS = {
         note="Trusted: Lean kernel; axioms propext/Quot.sound/Classical.choice; Spec/AddressSafe.lean; assumptions A1-A3 (hypotheses, validated "
              "on the real functions every run) and A9 (Command argv); hand-written model + correspondence harness.",
         technique="Lean 4 proof over a parameterised model + exhaustive/sampled model-vs-code correspondence"),
+    "C04": dict(
+        category="proof",
+        text="Lean theorems over one model of the SMTP client (sync and tokio are both compared to it) run against an arbitrary scripted "
+             "peer: ehlo_first, one_command_then_its_reply, envelope_on_the_wire (MAIL with the exact reverse path and exactly the needed "
+             "parameters, RCPT per recipient in order, DATA, content - or a prefix then at most QUIT), extension_required, mail_line_exact, "
+             "xtext_valid. Correspondence: the real SmtpConnection / AsyncSmtpConnection over loopback against a scripted peer for every "
+             "dialogue position x fault kind and random scripts, compared unit by unit; an independent acceptor of RFC 5321 client "
+             "transcripts (Spec/Dialogue.lean) is applied to the real transcripts; custom parameter values for every octet.",
+        design_ref="DESIGN.md 5 C04",
+        note="Trusted: Lean kernel; axioms propext/Quot.sound/Classical.choice; Spec/Dialogue.lean, Spec/XTextSpec.lean; hand-written client model + "
+             "scripted-peer harness; reactive-peer assumption (stalls are C20). Known findings: CR/LF in ClientId::Domain and in a custom parameter keyword.",
+        technique="Lean 4 proof (case analysis + induction over recipients, for every server script) + model-vs-code correspondence over loopback"),
+    "C05": dict(
+        category="proof",
+        text="Lean theorems over the client model for every server script: send_outcomes (refused before writing / delivered with exactly the "
+             "final reply / failed after a prefix and shut), ok_is_final_positive_reply, failed_send_shuts, error_carries_code_and_text. "
+             "Correspondence: single faults exhaustively (every dialogue position x 6 fault kinds x 1..3 recipients) and random multi-fault "
+             "scripts against the real sync and tokio clients; the transcript acceptor recomputes each send's outcome from the server's own "
+             "replies and compares it with what the client reported.",
+        design_ref="DESIGN.md 5 C05",
+        note="Trusted: Lean kernel; axioms propext/Quot.sound/Classical.choice; Spec/Dialogue.lean; model + scripted-peer harness; I/O error kinds after "
+             "a peer close are one class; replies outside the legal set (354 to end-of-data) are reported as the code does (positive) and not claimed.",
+        technique="Lean 4 proof (for every server script) + model-vs-code correspondence over loopback with fault enumeration"),
+    "C14": dict(
+        category="proof",
+        text="Lean theorems: mechanism_first_offered, none_offered_nothing_sent, initial_response_exact (base64 round trip proved), "
+             "challenge_answers, login_prompt_classes, auth_wire (AUTH line, at most ten answers each the base64 of user name or password, "
+             "at most one QUIT, success only on a non-challenge reply), ten_challenges_fail, base64_lossless. Correspondence: the real auth "
+             "of both clients against scripted challenge sequences; Spec/AuthSpec.lean decodes every credential line actually sent; "
+             "Debug/error text checked for credential leaks.",
+        design_ref="DESIGN.md 5 C14",
+        note="Trusted: Lean kernel; axioms propext/Quot.sound/Classical.choice; Spec/AuthSpec.lean; model + scripted-peer harness; case-sensitive "
+             "EHLO keyword matching is accepted (fails safe).",
+        technique="Lean 4 proof (induction over the challenge counter, base64 inverse) + model-vs-code correspondence over loopback"),
 }
 
 NOT_APPLICABLE = {
